@@ -60,16 +60,18 @@ function SHOW(o){
   return {cls:Object.prototype.toString.call(o).slice(8,-1), ext:Object.isExtensible(o), props:props};
 }
 function APROTO(){
-  var names = SORTNAMES(Object.getOwnPropertyNames(Array.prototype)), props = [];
-  for (var i=0;i<names.length;i++){ var n = names[i];
-    if (n === "length" || !ISIN(APNAMES0, n)) props[props.length] = {n:UNITS(n), p:OWNX(Array.prototype,n)};
-  }
+  var all = Object.getOwnPropertyNames(Array.prototype), sel = [], props = [];
+  if (all.length === APNAMES0.length) sel = ["length"];
+  else for (var i=0;i<all.length;i++){ var n = all[i]; if (n === "length" || !ISIN(APNAMES0, n)) sel[sel.length] = n; }
+  sel = SORTNAMES(sel);
+  for (i=0;i<sel.length;i++) props[i] = {n:UNITS(sel[i]), p:OWNX(Array.prototype,sel[i])};
   return props;
 }
 function CLEANUP(){
   var names = Object.getOwnPropertyNames(Array.prototype);
-  for (var i=0;i<names.length;i++){ var n = names[i]; if (n !== "length" && !ISIN(APNAMES0, n)) delete Array.prototype[n]; }
-  Array.prototype.length = 0;
+  if (names.length !== APNAMES0.length)
+    for (var i=0;i<names.length;i++){ var n = names[i]; if (n !== "length" && !ISIN(APNAMES0, n)) delete Array.prototype[n]; }
+  if (Array.prototype.length !== 0) Array.prototype.length = 0;
 }
 function BUILD(ob){
   var o, P = null, i;
@@ -227,17 +229,15 @@ var Spec = &gen.Spec{
 					Opts: tlc.Opts{Timeout: 60 * time.Minute, Seed: c.Seed}},
 				{Name: "array-object state machine, all histories to depth 3", Cfg: cfg(c, []string{"hist"}, 0, 3, false, true, true),
 					Opts: tlc.Opts{Timeout: 60 * time.Minute}},
-				{Name: "array-object state machine, random histories of length 10", Cfg: cfg(c, []string{"hist"}, 0, 10, false, true, false),
-					Opts: tlc.Opts{Workers: 4, Simulate: true, Num: 400, Depth: 11, Seed: c.Seed, Timeout: 20 * time.Minute}},
+				{Name: "array-object state machine, every step from random histories of length <= 10", Cfg: cfg(c, []string{"hist"}, 0, 10, false, true, false),
+					Opts: tlc.Opts{Workers: 4, Simulate: true, Num: 20, Depth: 11, Seed: c.Seed, Timeout: 20 * time.Minute}},
 			}
 		}
 		return []gen.RunCfg{
-			{Name: "methods(all families, arrays to length 3, sampled argument lists)", Cfg: cfg(c, methodFams, 100, 0, false, false, false),
+			{Name: "methods(all families, arrays to length 3, 40 sampled argument lists per receiver and family)", Cfg: cfg(c, methodFams, 40, 0, false, false, false),
 				Opts: tlc.Opts{Timeout: 20 * time.Minute, Seed: c.Seed}},
 			{Name: "array-object state machine, all histories to depth 2", Cfg: cfg(c, []string{"hist"}, 0, 2, false, true, true),
 				Opts: tlc.Opts{Timeout: 20 * time.Minute}},
-			{Name: "array-object state machine, random histories of length 8", Cfg: cfg(c, []string{"hist"}, 0, 8, false, true, false),
-				Opts: tlc.Opts{Workers: 4, Simulate: true, Num: 30, Depth: 9, Seed: c.Seed, Timeout: 10 * time.Minute}},
 		}
 	},
 	Assume: []string{
